@@ -249,11 +249,23 @@ impl Parser {
                         let span = node.as_span();
                         let mut ident = Self::ident(node).to_err_vec()?;
 
+                        // the counter holds `start + step`, which is not always an int
+                        let counter_ty = {
+                            let flags = TypecheckFlags::use_class(
+                                input.user_data().get_type_of_executing_class(),
+                            );
+                            let step_ty = match step.as_ref() {
+                                Some((val, _)) => val.for_type(&flags).to_err_vec()?,
+                                None => TypeLayout::Native(NativeType::Int),
+                            };
+                            start_ty
+                                .get_output_type(&step_ty, &BinaryOperation::Add, &flags)
+                                .filter(|ty| ty.is_numeric(true))
+                                .unwrap_or(TypeLayout::Native(NativeType::Int))
+                        };
+
                         ident
-                            .link_force_no_inherit(
-                                input.user_data(),
-                                Cow::Owned(TypeLayout::Native(NativeType::Int)),
-                            )
+                            .link_force_no_inherit(input.user_data(), Cow::Owned(counter_ty))
                             .to_err_vec()?;
 
                         // input.user_data().add_dependency(ident.clone());
